@@ -148,6 +148,13 @@ def run(ctx, ck):
                       'accumulates %s' % norm(s.value)[:80])
                 n_ok += 1
         ck.floor('accumulations in near-field image loop', n_ok, 2)
+    # nothing the near field computes from the frequency is kept from an earlier call (shared with C14)
+    ck.rule('R-CACHE.owner-only', 'a value memoised by the near-field code depends only on its owner / key')
+    from .C14 import run_cache_rule
+    from ..rules import self_closure as _sc
+    nf_funcs_ = {g_.qual for q_ in (NF, HELPER, PSI56) for g_ in _sc(ctx, ctx.model.func(q_))}
+    sites_, n_c = run_cache_rule(ctx, ck, rule='R-CACHE.owner-only', within=nf_funcs_)
+    ck.info('memo_sites_in_the_near_field_code', n_c)
     # H = curl A by central differences of the displaced vector potentials
     ck.rule('R-POLY.curl', 'H[a] = sum eps(a,i,c) (A[+][i][c] - A[-][i][c]): every term of the curl has its permutation sign')
     from ._curl import check_curl
